@@ -745,3 +745,106 @@ Proof.
     + apply Hb; [unfold do_take; destruct (slot g); reflexivity|unfold do_take; destruct (slot g); reflexivity|].
       exists ATake. rewrite Hpr. auto.
 Qed.
+
+Lemma Tok_init pl g : ginit pl g -> Tok g.
+Proof.
+  intros -> st Hv _ Hq. exfalso. apply Hq. cbn. destruct (valid_st_cases _ Hv) as [->| ->]; reflexivity.
+Qed.
+
+Lemma GRel_init pl g : ginit pl g -> (forall p, In p pl -> disc MOut p = true) -> GRel g.
+Proof.
+  intros -> Hd. split; cbn.
+  - rewrite map_length, repeat_length. reflexivity.
+  - intros t gt th G B. unfold get_thread in B. cbn in B. apply nth_error_repeat in B. subst th.
+    apply nth_error_In in G. apply in_map_iff in G. destruct G as (p & <- & Hin).
+    unfold grel. cbn. specialize (Hd _ Hin). split; [|eapply disc_wfp; eauto].
+    split; [reflexivity|]. rewrite (disc_MOut_head _ Hd). reflexivity.
+Qed.
+
+(* ------------------------------------------------------------------------------------------ *)
+(** * the exchange invariant for mailbox programs *)
+
+Fixpoint mbox_out (p : list action) : bool :=
+  match p with
+  | [] => true
+  | AFeWL st :: APut _ :: AFeMS st' :: r => (st =? 0) && (st' =? 1) && mbox_out r
+  | AFeWL st :: ATake :: AFeMS st' :: r => (st =? 1) && (st' =? 0) && mbox_out r
+  | ALock :: AUnlock :: r => mbox_out r
+  | _ => false
+  end.
+
+(** a program at any position inside a mailbox program *)
+Definition mbp (p : list action) : bool :=
+  match p with
+  | APut _ :: AFeMS st :: r => (st =? 1) && mbox_out r
+  | ATake :: AFeMS st :: r => (st =? 0) && mbox_out r
+  | AFeMS st :: r => valid_st st && mbox_out r
+  | AUnlock :: r => mbox_out r
+  | _ => mbox_out p
+  end.
+
+Lemma mbox_out_mbp p : mbox_out p = true -> mbp p = true.
+Proof. destruct p as [|[] r]; cbn; auto; discriminate. Qed.
+
+Definition slot_list (g : gstate) : list Z := match slot g with Some v => [v] | None => [] end.
+
+Definition coh (g : gstate) : Prop :=
+  (festat (base g) = 0 /\ slot g = None) \/ (festat (base g) = 1 /\ slot g <> None).
+(** between the local action and the status write the status is "behind" the slot *)
+Definition anti (g : gstate) (st : Z) : Prop :=
+  (st = 1 /\ festat (base g) = 0 /\ slot g <> None) \/ (st = 0 /\ festat (base g) = 1 /\ slot g = None).
+
+Definition dirty (gt : gthread) (th : thread) (st : Z) : Prop :=
+  exists r, prog gt = AFeMS st :: r /\ (pend gt = false \/ main th = FeWrite st).
+
+Record XInv (g : gstate) : Prop := {
+  x_mb : forall t gt, nth_error (gth g) t = Some gt -> mbp (prog gt) = true;
+  x_flow : uflow g = false /\ oflow g = false;
+  x_perm : Permutation (produced g) (slot_list g ++ consumed g);
+  x_coh : coh g \/ exists t gt th st, nth_error (gth g) t = Some gt /\ get_thread (base g) t = Some th /\
+                                      dirty gt th st;
+  x_dirty : forall t gt th st, nth_error (gth g) t = Some gt -> get_thread (base g) t = Some th ->
+            dirty gt th st -> anti g st;
+  x_sec : forall t gt th, nth_error (gth g) t = Some gt -> get_thread (base g) t = Some th ->
+          (pend gt = true -> forall st r, prog gt = AFeWL st :: r -> main th = Done 0 -> festat (base g) = st) /\
+          (pend gt = false -> forall v r, prog gt = APut v :: r -> festat (base g) = 0) /\
+          (pend gt = false -> forall r, prog gt = ATake :: r -> festat (base g) = 1) }.
+
+(** threads inside their full/empty section own the lock *)
+Definition insec (gt : gthread) (th : thread) : Prop :=
+  (pend gt = false /\ head_mode (prog gt) = MFe) \/
+  (pend gt = true /\ (exists st r, prog gt = AFeWL st :: r) /\ main th = Done 0) \/
+  (exists st, main th = FeWrite st).
+
+Lemma insec_own gt th : tinv1 th -> grel gt th -> insec gt th -> own th = true.
+Proof.
+  intros T Hg [[A B]|[(A & (st & r & B) & C)|[st A]]].
+  - unfold grel in Hg. rewrite A, B in Hg. destruct Hg as [_ Hg]. exact Hg.
+  - unfold grel in Hg. rewrite A, B, C in Hg. unfold lock_pc in Hg. dsj; pc_inj; try discriminate; auto.
+  - apply (t1_need _ T). rewrite A. reflexivity.
+Qed.
+
+Lemma dirty_insec gt th st : dirty gt th st -> insec gt th.
+Proof. intros (r & A & [B|B]); [left; rewrite A; auto|right; right; eauto]. Qed.
+
+Lemma mbox_out_disc : forall q, mbox_out q = true -> disc MOut q = true.
+Proof.
+  fix IH 1. intros [|a q]; [reflexivity|]. destruct a as [st|st| | |v|]; cbn; try discriminate.
+  - destruct q as [|b q]; [discriminate|].
+    destruct b as [st1|st1| | |v1|]; try discriminate;
+      (destruct q as [|c q]; [discriminate|]; destruct c as [st2|st2| | |v2|]; try discriminate);
+      intros H; apply andb_prop in H; destruct H as [H H3]; apply andb_prop in H; destruct H as [H1 H2];
+      apply Z.eqb_eq in H1; apply Z.eqb_eq in H2; subst; cbn; apply IH; exact H3.
+  - destruct q as [|b q]; [discriminate|]. destruct b; try discriminate. intros H. cbn. apply IH. exact H.
+Qed.
+
+Lemma mbp_wfp p : mbp p = true -> wfp p = true.
+Proof.
+  unfold wfp. destruct p as [|[st|st| | |v|] q]; cbn [mbp head_mode]; intros H;
+    try (apply mbox_out_disc in H; exact H).
+  - apply andb_prop in H. destruct H as [H1 H2]. cbn. rewrite H1. cbn. apply mbox_out_disc. exact H2.
+  - destruct q as [|[] q']; try discriminate.
+    apply andb_prop in H. destruct H as [H1 H2]. apply Z.eqb_eq in H1. subst. cbn. apply mbox_out_disc. exact H2.
+  - destruct q as [|[] q']; try discriminate.
+    apply andb_prop in H. destruct H as [H1 H2]. apply Z.eqb_eq in H1. subst. cbn. apply mbox_out_disc. exact H2.
+Qed.
